@@ -9,6 +9,7 @@ import (
 	"strconv"
 	"strings"
 	"syscall"
+	"time"
 	"unsafe"
 )
 
@@ -61,6 +62,9 @@ func recChildMain() {
 	rec(fmt.Sprintf("spawned %d", os.Getpid()))
 	if m, _ := readModeFile(modePath); m == mDown {
 		rec("exit-down")
+		os.Exit(1)
+	} else if _, kind, ok := parseStdioFault(m); ok && kind == fExitAtStart {
+		rec("exit-fault")
 		os.Exit(1)
 	}
 	buf := make([]byte, 64<<10)
@@ -131,6 +135,44 @@ func handleRecLine(line []byte, modePath string, rec func(string)) {
 		if mode == mDown {
 			rec("exit-down")
 			os.Exit(1)
+		}
+		if _, kind, ok := parseStdioFault(mode); ok {
+			ans := scriptedAnswer(mHealthy, variant, h)
+			switch kind {
+			case fExitAtStart, fExitAfterRead:
+				rec("exit-fault")
+				os.Exit(1)
+			case fCloseStdout:
+				rec("stdout-closed")
+				_ = os.Stdout.Close()
+				return // stays alive and keeps recording its stdin
+			case fPartialAnswer:
+				_, _ = os.Stdout.WriteString(ans[:len(ans)/2])
+				rec("exit-fault")
+				os.Exit(1)
+			case fAnswerThenExit:
+				_, _ = os.Stdout.WriteString(ans + "\n")
+				rec("exit-fault")
+				os.Exit(0)
+			case fStdinClosed:
+				// nothing can reach this process any more; it stays alive and answers the barrier signal
+				rec("stdin-closed")
+				_ = syscall.Close(0)
+				_, _ = os.Stdout.WriteString(ans + "\n")
+				sigc := make(chan os.Signal, 64)
+				signal.Notify(sigc, syscall.SIGUSR1)
+				for {
+					select {
+					case <-sigc:
+						rec("sync")
+					case <-time.After(200 * time.Millisecond):
+						if os.Getppid() == 1 {
+							os.Exit(0)
+						}
+					}
+				}
+			}
+			mode = mHealthy
 		}
 	}
 	ans := scriptedAnswer(mode, variant, h)
